@@ -44,6 +44,7 @@ package parse
 // The generic integral-slice parsers, proved once for a symbolic element width.
 //@ func parse.SignedIntegralSlice(s) (out, err)
 //@   props C15
+//@   flag record signedIntegralSlice
 //@   safety C16
 //@   loop 0:
 //@     invariant len(out) == splitCount(s, ",") && len(parts) == splitCount(s, ",") && out.arr != parts.arr
@@ -61,6 +62,7 @@ package parse
 
 //@ func parse.UnsignedIntegralSlice(s) (out, err)
 //@   props C15
+//@   flag record unsignedIntegralSlice
 //@   safety C16
 //@   loop 0:
 //@     invariant len(out) == splitCount(s, ",") && len(parts) == splitCount(s, ",") && out.arr != parts.arr
